@@ -15,8 +15,10 @@
 //
 //	(i)   per-block app hashes and per-tx results of C == REF's
 //	(ii)  every query answer == REF's answer to the same request with REF quiescent at ONE committed height L,
-//	      entry <= L <= exit (latest height when the query was issued / returned); the two heap objects are never
-//	      observed unequal; the height the VM reports equals the height of the state it shows
+//	      entry <= L <= exit (entry = latest published height when the query was issued; exit = latest committed height
+//	      when it returned, i.e. max(published height, number of block batches durably written)); the two heap objects
+//	      are never observed unequal; the height the VM reports equals the height of the state it shows; an object and
+//	      a bank balance changed by the same block are never observed at different heights
 //	(iii) no deadlock, no panic (a use of a closed DB snapshot panics like pebble's does)
 //
 // Every schedule with <= bound preemptions is enumerated (own DFS over vs.RunOnce; every replay is checked to reach
